@@ -25,14 +25,17 @@ ROOT = os.path.dirname(os.path.dirname(os.path.abspath(__file__)))
 TARGETS = {
     "interpolators/code0.py": ["C03"], "interpolators/code1.py": ["C03"], "interpolators/code2.py": ["C03"],
     "interpolators/code4.py": ["C03"], "interpolators/code4p.py": ["C03"],
-    "modifiers/histosys.py": ["C01", "C20"], "modifiers/normsys.py": ["C01"], "modifiers/shapesys.py": ["C01", "C02"],
-    "modifiers/staterror.py": ["C01", "C02"], "modifiers/shapefactor.py": ["C01"], "modifiers/lumi.py": ["C01"],
-    "modifiers/normfactor.py": ["C01"],
+    "modifiers/histosys.py": ["C01", "C12", "C20"], "modifiers/normsys.py": ["C01", "C12"],
+    "modifiers/shapesys.py": ["C01", "C02", "C12"], "modifiers/staterror.py": ["C01", "C02", "C12"],
+    "modifiers/shapefactor.py": ["C01", "C12"], "modifiers/lumi.py": ["C01", "C12"],
+    "modifiers/normfactor.py": ["C01", "C12"],
     "pdf.py": ["C01", "C02", "C10", "C12", "C20"], "constraints.py": ["C02", "C14"],
     "parameters/paramsets.py": ["C12", "C02"], "parameters/paramview.py": ["C12", "C01"],
     "tensor/numpy_backend.py": ["C04", "C01"], "probability.py": ["C04", "C02"],
-    "infer/test_statistics.py": ["C06"], "infer/calculators.py": ["C07", "C08", "C14"], "infer/__init__.py": ["C08"],
-    "infer/intervals/upper_limits.py": ["C09"], "infer/mle.py": ["C05", "C06"], "optimize/common.py": ["C05", "C13"],
+    "infer/test_statistics.py": ["C06"], "infer/calculators.py": ["C07", "C08", "C14"], "infer/__init__.py": ["C08", "C09"],
+    "infer/intervals/upper_limits.py": ["C09"], "infer/mle.py": ["C05", "C06"], "infer/utils.py": ["C08", "C07"],
+    "cli/infer.py": ["C19"], "cli/spec.py": ["C19"], "cli/rootio.py": ["C19"], "cli/patchset.py": ["C19"],
+    "modifiers/__init__.py": ["C20", "C01"], "mixins.py": ["C12"], "optimize/common.py": ["C05", "C13"],
     "optimize/mixins.py": ["C05"], "optimize/opt_scipy.py": ["C05"], "optimize/opt_minuit.py": ["C05"],
     "workspace.py": ["C16", "C12"], "patchset.py": ["C17"], "utils.py": ["C17", "C19"],
     "readxml.py": ["C18"], "writexml.py": ["C18"], "tensor/common.py": ["C01", "C14"], "events.py": ["C11"],
@@ -121,8 +124,17 @@ def mutate_source(src, rng):
     return {"kind": kind, "line": line, "before": before, "source": new_src}
 
 
-def run(cmd, **kw):
-    return subprocess.run(cmd, stdout=subprocess.PIPE, stderr=subprocess.STDOUT, text=True, **kw)
+def run(cmd, timeout=None, **kw):
+    try:
+        return subprocess.run(cmd, stdout=subprocess.PIPE, stderr=subprocess.STDOUT, text=True, timeout=timeout,
+                              start_new_session=True, **kw)
+    except subprocess.TimeoutExpired as e:
+        subprocess.run(["pkill", "-f", "VERIF_MUTANT_MARK"], check=False)
+
+        class R:
+            returncode = 124
+            stdout = f"timeout after {timeout}s"
+        return R()
 
 
 def main():
@@ -163,11 +175,17 @@ def main():
                 for chk in TARGETS[rel]:
                     r = run([os.path.join(ROOT, "check"), chk, "--tier", "quick", "--no-evidence", "--jobs", str(a.jobs),
                              "--scale", str(a.scale)], env=dict(os.environ, VERIF_PYHF_SRC=os.path.join(wt, "src")),
-                            cwd=ROOT)
+                            cwd=ROOT, timeout=1200)
+                    if r.returncode == 124:
+                        subprocess.run(["pkill", "-f", f"VERIF_PYHF_SRC={wt}"], check=False)
+                        subprocess.run("pkill -f 'vlib.worker --prop " + chk + " '", shell=True, check=False)
                     sigs = [ln.split("signature: ")[1] for ln in r.stdout.splitlines() if "violation signature: " in ln]
                     rec["checks"][chk] = {"exit": r.returncode, "signatures": sigs[:4]}
                     if r.returncode == 1:
                         outcome = "killed"
+                        break
+                    if r.returncode == 124:
+                        outcome = "hang"
                         break
                     if r.returncode != 0:
                         outcome = "crashed_in_check"
